@@ -32,6 +32,8 @@ CONFIGS = [
     ('perline-0.01+prune-off+parseinfo', dict(perlinememos=0.01, prune_memos_on_cut=False, parseinfo=True), True),
 ]
 
+ERROR_TIE = "start: a 'a' | b | a 'b' ;\n\na: s 'a' | 'bb' ;\n\ns: 'a' 'b' ;\n\nb: 'a' c ;\n\nc: /b+/ ;\n"
+
 LR_GRAMMARS = [
     ('lr-direct', "start: e $ ;\n\ne: e '+' t | t ;\n\nt: t '*' f | f ;\n\nf: '(' ~ e ')' | /\\d/ ;\n"),
     ('lr-alias', "start: e $ ;\n\ne: x '+' t | t ;\n\nx: e ;\n\nt: /\\d/ ;\n"),
@@ -45,6 +47,8 @@ MEMO_GRAMMARS = [
     ('cut', "start: x ~ 'b' | x 'a' | y ;\n\nx: 'a' ;\n\ny: x x | 'b' ;\n"),
     ('named', "start: l:x r:(x | y) | l:y ;\n\nx: v:'a' w:['b'] ;\n\ny: 'b' {x} ;\n"),
     ('stmt', "start: x 'b' 'a' | x 'a' | y ;\n\nx: 'a' | 'b' ;\n\ny: 'a' 'a' | 'a' | 'b' ;\n"),
+    # two failures of different classes at the same furthest position (recorded finding: which one is reported depends on re-evaluation)
+    ('error-tie', ERROR_TIE),
     ('nostak', "start: x y 'a' | x y ;\n\n@nostak\nx: 'a' | 'b' ;\n\n@nomemo\ny: 'b' | x ;\n"),
 ]
 
@@ -71,7 +75,12 @@ def lattice_case(m, label, model, text, is_lr, only=None):
         m.add('transitions')
         if outcome(got) != bo:
             kind = 'status' if got[0] != base[0] else ('ast' if got[0] == 'ok' else 'error-class')
-            m.violation(f'A/{name}/{kind}', grammar=label, input=text, default=base, alt=got, settings=settings)
+            sig = f'A/{name}/{kind}'
+            if kind == 'error-class' and label == ERROR_TIE and base[2:] == got[2:]:
+                # recorded finding: of several failures at the furthest position the one met last is reported (the test-suite pins
+                # that), and a rule replayed from the memo does not meet its inner failures again
+                sig = 'A/error-class/tie-at-the-furthest-position-depends-on-memoization'
+            m.violation(sig, grammar=label, input=text, default=base, alt=got, settings=settings)
     m.add('states')
     return consumed
 
@@ -339,7 +348,7 @@ def run(rc):
     ev_inputs = list(gs.inputs(['a', 'b'], 4 if quick else 5))
     ev_inputs = [' '.join(t) for t in ev_inputs]
     lr_small = [' '.join(t) for n in range(0, 4 if quick else 5) for t in itertools.product(['1', '+', '*', '('], repeat=n)]
-    bitems = [(n, g, [t for t in ev_inputs], False) for n, g in MEMO_GRAMMARS] + [(n, g, lr_small, True) for n, g in LR_GRAMMARS]
+    bitems = [(n, g, [t for t in ev_inputs], False) for n, g in MEMO_GRAMMARS if n != 'error-tie'] + [(n, g, lr_small, True) for n, g in LR_GRAMMARS]
     # split inputs so that the pool balances
     split = []
     for n, g, ins, lr in bitems:
